@@ -153,8 +153,10 @@ Section Reader.
         | Err e => Err e
         | Ok (pgsz, max_pfn) =>
             let sub_hdr_blocks := get32 be dh (dh_sub_hdr_size is64) in
-            (* both travel on as int32_t; the model covers the non-negative range *)
-            if (2^31 - 1 <=? sub_hdr_blocks) || (2^31 <=? bitmap_blocks) then Err ERR_UNMODELLED
+            (* (int32_t) sub_hdr_size < 0: "Invalid sub-header size" *)
+            if 2^31 <=? sub_hdr_blocks then Err ERR_CORRUPT else
+            (* bitmap_blocks travels on as int32_t; the model covers the non-negative range *)
+            if 2^31 <=? bitmap_blocks then Err ERR_UNMODELLED
             else
             let '(s, e, max_pfn) :=
               read_sub_hdr be is64 version pgsz sub_hdr_blocks fidx max_pfn in
